@@ -524,6 +524,9 @@ type Plan struct {
 	SrcList  []uint32 `json:"src_list,omitempty"`
 	SrcExact bool     `json:"src_exact"`
 	Closed   bool     `json:"closed"`   // source gets closed once everything is supplied
+	// LateClose: the end of the stream is reported by a separate empty supply
+	// after the last byte (as a file or a socket does), not together with it.
+	LateClose bool `json:"late_close,omitempty"`
 	DstMode  uint8    `json:"dst_mode"` // 0 ample, 1 growing, 2 fresh windows
 	DstStep  uint32   `json:"dst_step,omitempty"`
 	DstFill  uint8    `json:"dst_fill,omitempty"`
@@ -536,7 +539,7 @@ type Plan struct {
 var OneShot = Plan{SrcExact: true, Closed: true}
 
 // Trivial reports whether p is the one-shot plan shape.
-func (p Plan) Trivial() bool { return p.SrcMode == 0 && p.DstMode == 0 }
+func (p Plan) Trivial() bool { return p.SrcMode == 0 && p.DstMode == 0 && !p.LateClose }
 
 // DrawPlan draws a chunking plan. n is the payload length.
 func DrawPlan(t *rapid.T, label string, n int) Plan {
@@ -595,6 +598,7 @@ func DrawPlan(t *rapid.T, label string, n int) Plan {
 	p.WorkFill = rapid.SampledFrom([]uint8{0, 0xFE}).Draw(t, label+"_wfill")
 	p.WorkMode = uint8(rapid.SampledFrom([]int{0, 0, 0, 1}).Draw(t, label+"_wmode"))
 	p.TokCap = uint32(rapid.SampledFrom([]int{0, 1, 2, 3, 16, 256}).Draw(t, label+"_tokcap"))
+	p.LateClose = rapid.IntRange(0, 3).Draw(t, label+"_lateclose") == 0
 	return p
 }
 
